@@ -258,6 +258,52 @@ func c05R4(c *core.Ctx) {
 		}
 	}
 	c.Check(okIter, rule, name+":drops the peer's subscriptions", f.Pos(), "every subscription of the lost peer is unsubscribed locally and removed from the replicated state", "the subscriptions of a lost peer are not all unsubscribed and deleted from the state")
+	// (R4b) the key deleted is the lost peer's: state.Del(ev) derives the replicated key from
+	// ev.Peer/ev.Conn/ev.Ssid, so between SubscriptionsOf handing out ev and Del(ev) the event
+	// must not be given to anything that may write its fields (the unsubscribe handler chain
+	// ends in broker.NotifyUnsubscribe, which re-stamps ev.Peer with the local broker id).
+	cg := c.P.CG()
+	for _, so := range subsOf {
+		a := eng.CallArgs(so.Common())
+		cb, off := eng.FuncValue(a[2])
+		if a[1] != param(f, 1) || cb == nil || cb.Blocks == nil || len(cb.Params) < off+1 {
+			continue
+		}
+		ev := ssa.Value(cb.Params[off])
+		isDel := func(i ssa.Instruction) bool {
+			return eng.IsCallTo(i, idStateDel) && eng.StripConv(eng.CallArgs(i.(ssa.CallInstruction).Common())[1]) == ev
+		}
+		why := ""
+		mutator := func(i ssa.Instruction) bool {
+			ci, ok := i.(ssa.CallInstruction)
+			if !ok || isDel(i) {
+				return false
+			}
+			for _, e := range cg.Out[cb] {
+				if e.Site != ci {
+					continue
+				}
+				args := eng.CallArgs(ci.Common())
+				o := len(e.Callee.Params) - len(args)
+				for k, arg := range args {
+					if o >= 0 && eng.StripConv(arg) == ev {
+						if w, how := mayWriteParam(cg, e.Callee, k+o, map[string]bool{}); w {
+							why = how
+							return true
+						}
+					}
+				}
+			}
+			return false
+		}
+		reached, path := eng.Reach(cb, nil, isDel, mutator)
+		c.Count("callsites_analysed", len(cg.Out[cb]))
+		if reached {
+			c.Fail(rule, name+":deletes the lost peer's own key", so.Pos(), "the event is handed to a function that may rewrite it before state.Del(ev) computes the key to delete ("+why+"): the entry removed is not the lost peer's, whose subscriptions stay live in the replicated state", path...)
+		} else {
+			c.OK(rule, name+":deletes the lost peer's own key", so.Pos(), "state.Del(ev) runs before ev is handed to any function that may write its fields")
+		}
+	}
 }
 
 func c05R5(c *core.Ctx) {
